@@ -168,7 +168,8 @@ C18_Check(k, withFaithful) ==
        LET a == k.item.fields[j]  b == OwnFields(k)[j]  f == CompFields(k)[j] IN
        /\ a.name = b.name /\ a.compact = b.compact /\ ~a.skip /\ a.vis
        /\ Unbox(S, a.ty) = Unbox(S, b.ty)                    \* refers to the same generated items as the type's own item
-       /\ IsBox(S, a.ty) <=> Contains(f.tn, "Box<")         \* the Box marker of this very field list
+       \* the Box marker of this very field list (a compact position is never boxed)
+       /\ IsBox(S, a.ty) <=> (Contains(f.tn, "Box<") /\ ~(HasId(Reg, UnCow(Reg, f.ty)) /\ Ty(Reg, UnCow(Reg, f.ty)).def.k = "compact"))
   /\ (withFaithful => FieldsFaithful(Reg, S, Root, CompFields(k), k.item.fields, <<>>, <<>>))
   /\ RangeOf(k.item.derives) = GlobalDerives(S) \cup (IF S.has_compact_as /\ SingleUnsigned(CompFields(k)) THEN {CompactAsStr(S)} ELSE {})
   /\ RangeOf(k.item.attrs) = GlobalAttrs(S)
